@@ -84,6 +84,8 @@ class LPoly():
         if isinstance(other, LAlg):
             return LAlg(self * other.IPoly, self * other.XPoly)
         if not isinstance(other, LPoly):
+            if self.iszero:
+                return LPoly([], self.dmin)
             return LPoly(other * self.coefs, self.dmin)
         if self.iszero or other.iszero:
             return LPoly([])
@@ -95,6 +97,8 @@ class LPoly():
         if isinstance(other, LAlg):
             return LAlg(self * other.IPoly, ~self * other.XPoly)
         elif not isinstance(other, LPoly):
+            if self.iszero:
+                return LPoly([], self.dmin)
             return LPoly(other * self.coefs, self.dmin)
 
     def __add__(self, other):
